@@ -277,8 +277,20 @@ func genListLine(r *rng.R, tree []TEntry, known *[]string) []SField {
 		ty := r.Pick([]string{"file", "dir", "symlink", "node"})
 		return mk(ty, pathToks(string(e.Path)), extra(ty)...)
 	case x < 8: // absent
-		ty := r.Pick([]string{"file", "dir", "symlink", "tbd", "node"})
-		return mk(ty, absentName(), extra(ty)...)
+		ty := r.Pick([]string{"file", "dir", "dir", "symlink", "tbd", "node"})
+		an := absentName()
+		if ty == "dir" { // becomes a member although it is not on disk
+			var b []byte
+			for _, t := range an {
+				if t.K == TEsc {
+					b = append(b, '*')
+				} else {
+					b = append(b, t.C)
+				}
+			}
+			*known = append(*known, string(b))
+		}
+		return mk(ty, an, extra(ty)...)
 	case x < 9: // symlink / node that need no source
 		if r.Bool() {
 			return mk("symlink", absentName(), "targ="+r.Pick([]string{"/var/db/repos/gentoo", "../x", "t t"}))
@@ -287,7 +299,18 @@ func genListLine(r *rng.R, tree []TEntry, known *[]string) []SField {
 	case x < 13: // wildcard add
 		ty := r.Pick([]string{"file", "dir", "dir", "tbd", "symlink", "node"})
 		return mk(ty, wildName(), extra(ty)...)
-	case x < 16: // wildcard omit
+	case x < 16: // wildcard omit: members are matched, on disk or not
+		if len(*known) > 0 && r.Chance(1, 3) {
+			k := (*known)[r.Intn(len(*known))]
+			d, base := filepath.Dir(k), filepath.Base(k)
+			if d == "/" {
+				d = ""
+			}
+			if r.Chance(1, 6) { // a star never crosses a slash: the parent's pattern must not take the children
+				return mk("omit", append(pathToks(filepath.Dir(d)+"/"), Tok{TStar, 0}))
+			}
+			return mk("omit", append(pathToks(d+"/"), patternToks(r, base)...))
+		}
 		return mk("omit", wildName())
 	case x < 18: // plain omit of something probably present
 		if len(*known) > 0 && r.Chance(3, 4) {
@@ -385,6 +408,23 @@ func genList(r *rng.R) Input {
 		it := itemJ{Fields: toJ(fl)}
 		items = append(items[:at:at], append([]itemJ{it}, items[at:]...)...)
 		lines = append(lines[:at:at], append([]string{RenderLine(fl, "")}, lines[at:]...)...)
+	}
+	if r.Chance(1, 3) { // a member that is not on disk, omitted by wildcard: omit matches members, not files
+		d := string(tree[0].Path)
+		nm := r.Pick([]string{"newdir", "new.d", "n n", "zz*z"})
+		add := []SField{{"", QBare, lit("dir")}, {" ", r.Intn(3), pathToks(d + "/" + nm)}}
+		var pat []Tok
+		switch r.Intn(3) {
+		case 0:
+			pat = append(pathToks(d+"/"+nm[:1]), Tok{TStar, 0})
+		case 1:
+			pat = append(append(pathToks(d+"/"), Tok{TStar, 0}), pathToks(nm[len(nm)-1:])...)
+		default:
+			pat = append(pathToks(d+"/"), Tok{TStar, 0})
+		}
+		om := []SField{{"", QBare, lit("omit")}, {" ", r.Intn(3), pat}}
+		items = append(items, itemJ{Fields: toJ(add)}, itemJ{Fields: toJ(om)})
+		lines = append(lines, RenderLine(add, ""), RenderLine(om, ""))
 	}
 	li := &ListInput{Tree: tree, Init: init, HasItems: true, Items: items, Lines: common.Bs(lines), CRLF: r.Chance(1, 10)}
 	if r.Chance(1, 8) { // raw script: structured lines damaged
